@@ -466,6 +466,8 @@ class _MissingImportFinder:
         self._conditional_depth = 0
         # Names read in function bodies seen so far.
         self._deferred_names = set()
+        # The scope stacks outside the comprehensions being visited.
+        self._comp_outer_scopestacks = []
 
     def find_missing_imports(self, node):
         self._scan_node(node)
@@ -989,11 +991,16 @@ class _MissingImportFinder:
         #    first in the node's _fields).
         generators = node.generators
         self.visit(generators[0].iter)
-        with self._NewScopeCtx(include_class_scopes=False):
-            self.visit_comprehension(generators[0], skip_iter=True)
-            self.visit(generators[1:])
-            for elt in elts:
-                self.visit(elt)
+        # (See visit_NamedExpr.)
+        self._comp_outer_scopestacks.append(self.scopestack)
+        try:
+            with self._NewScopeCtx(include_class_scopes=False):
+                self.visit_comprehension(generators[0], skip_iter=True)
+                self.visit(generators[1:])
+                for elt in elts:
+                    self.visit(elt)
+        finally:
+            self._comp_outer_scopestacks.pop()
 
     def visit_ListComp(self, node):
         self._visit_comp(node, [node.elt])
@@ -1062,7 +1069,17 @@ class _MissingImportFinder:
         # ``(x := value)`` evaluates the value before it binds the target
         # (see the comment in visit_Assign).
         self.visit(node.value)
-        self.visit(node.target)
+        if self._comp_outer_scopestacks and isinstance(node.target, ast.Name):
+            # PEP 572: inside a comprehension the target is bound in the
+            # scope that contains the (outermost) comprehension.
+            saved = self.scopestack
+            self.scopestack = self._comp_outer_scopestacks[0]
+            try:
+                self._visit_Store(node.target.id)
+            finally:
+                self.scopestack = saved
+        else:
+            self.visit(node.target)
 
     def visit_Call(self, node:ast.Call):
         logger.debug("visit_Call(%r)", node)
